@@ -22,9 +22,9 @@ from vlib import harness
 
 ID = "C12"
 LEVEL = "exploration"
-RULE = ("a case is a history of steps define(version k) / call(live version j, argument a) over <= 3 versions and <= 2 "
+RULE = ("a case is a history of steps define(version k) / call(live version j, argument a) / forced execution with .call() over <= 3 versions and <= 2 "
         "arguments: exhaustive up to length 4 (quick) / 5 (thorough) and sampled up to length 12, for same-session styles "
-        "'cells' (each definition exec'd with its own source, as in a notebook), 'lambda', 'nested', 'codeswap', 'reload' "
+        "'cells' (each definition exec'd with its own source, as in a notebook), 'samefile' (several same-named definitions at different lines of one module file, all alive), 'lambda', 'nested', 'codeswap', 'reload' "
         "(module file rewritten + importlib.reload), and across fresh processes ('module' and '__main__' scripts, including "
         "sessions that change nothing); distinct_nontrivial counts distinct histories with at least two versions and one "
         "call of a version other than the latest")
@@ -35,7 +35,7 @@ ASSUMPTIONS = [
     "nested functions / lambdas that differ only in closure values have the same source and are outside the statement",
 ]
 SHARDS = {"quick": 12, "thorough": 14}
-FLOORS = {"quick": {"histories": 800, "calls_checked": 2500, "old_version_calls": 700, "idreuse_achieved": 5, "fresh_process_sessions": 60, "unchanged_sessions_checked": 15},
+FLOORS = {"quick": {"histories": 800, "calls_checked": 2500, "old_version_calls": 700, "idreuse_achieved": 5, "forced_calls": 150, "fresh_process_sessions": 60, "unchanged_sessions_checked": 15},
           "thorough": {"idreuse_achieved": 50, "histories": 30000, "calls_checked": 100000, "old_version_calls": 30000, "fresh_process_sessions": 2000, "unchanged_sessions_checked": 400}}
 
 EXEC = []
@@ -43,8 +43,9 @@ _uid = [0]
 SESSION = os.path.join(harness.VERIF, "checks", "c12_session.py")
 
 
-def steps_alphabet(nv, na):
-    return [("def", k) for k in range(1, nv + 1)] + [("call", k, a) for k in range(1, nv + 1) for a in range(na)]
+def steps_alphabet(nv, na, force=False):
+    return [("def", k) for k in range(1, nv + 1)] + [("call", k, a) for k in range(1, nv + 1) for a in range(na)] + \
+        ([("force", k, a) for k in range(1, nv + 1) for a in range(na)] if force else [])
 
 
 def valid_history(h):
@@ -63,9 +64,15 @@ def cases(tier, seed):
     hs = []
     for n in range(2, L + 1):
         for h in itertools.product(alpha, repeat=n):
-            if valid_history(h) and sum(1 for s in h if s[0] == "call"):
+            if valid_history(h) and sum(1 for s in h if s[0] in ("call", "force")):
                 hs.append(h)
-    styles = ["cells", "cells", "lambda", "nested", "reload", "codeswap"]
+    # forced executions (MemorizedFunc.call) interleaved with ordinary calls of two live versions
+    ops = [("call", 1, 0), ("call", 2, 0), ("force", 1, 0), ("force", 2, 0)]
+    for n in (1, 2, 3):
+        for tail in itertools.product(ops, repeat=n):
+            if any(t[0] == "force" for t in tail):
+                hs.append((("def", 1), ("def", 2)) + tail)
+    styles = ["cells", "samefile", "lambda", "nested", "reload", "codeswap", "samefile"]
     chunk = []
     for i, h in enumerate(hs):
         chunk.append(dict(style=styles[i % len(styles)], h=[list(s) for s in h]))
@@ -105,6 +112,25 @@ def define_cell(style, k):
     return g["f"]
 
 
+def samefile_module(d):
+    """one module file holding three definitions of `f` at different lines, each kept alive under another name -
+    the file is never rewritten, so joblib's 'possible name collision' branch (stored code still present at the
+    stored line) is exercised"""
+    name = f"c12same{_uid[0]}"
+    _uid[0] += 1
+    parts = ["EXEC = []\n"]
+    for k in (1, 2, 3):
+        parts.append(f"\n\ndef f(x):\n    EXEC.append(('v{k}', x))\n    return ('v{k}', x)\n\n\nf_{k} = f\n" + "# pad\n" * k)
+    with open(os.path.join(d, name + ".py"), "w") as f:
+        f.write("".join(parts))
+    importlib.invalidate_caches()
+    mod = importlib.import_module(name)
+    mod.EXEC = EXEC
+    for k in (1, 2, 3):
+        getattr(mod, f"f_{k}").__globals__["EXEC"] = EXEC
+    return mod
+
+
 def run_history(style, h, ctx, d):
     from joblib import Memory
     cache = os.path.join(d, f"cache{_uid[0]}")
@@ -142,6 +168,10 @@ def run_history(style, h, ctx, d):
                     if got != (f"v{k}", -1):
                         ctx.violation(f"wrong-version:{style}", f"warm-up call of freshly defined version {k} returned {got}; {desc}", desc)
                         return
+                elif style == "samefile":
+                    if "mod" not in swap_holder:
+                        swap_holder["mod"] = samefile_module(d)
+                    live[k] = mem.cache(getattr(swap_holder["mod"], f"f_{k}"))
                 elif style == "codeswap":
                     fn = define_cell("cells", k)
                     if "f" not in swap_holder:
@@ -154,12 +184,17 @@ def run_history(style, h, ctx, d):
                     live[k] = mem.cache(define_cell(style, k))
                 versions_defined.append(k)
             else:
-                _, j, a = s
+                kind, j, a = s
                 if j not in live:
                     continue
                 before = len(EXEC)
                 try:
-                    got = live[j](a)
+                    if kind == "force":
+                        # MemorizedFunc.call: force the execution and store the result
+                        got = live[j].call(a)[0]
+                        ctx.count("forced_calls")
+                    else:
+                        got = live[j](a)
                 except Exception as e:  # noqa
                     ctx.violation(f"call-raised:{style}", f"call of version {j} raised {type(e).__name__}: {e}; {desc}", desc)
                     return
@@ -173,6 +208,9 @@ def run_history(style, h, ctx, d):
                     ctx.violation(f"{key}:{style}", f"step {idx}: version {j} called with {a} returned {got}; history {h}", desc)
                     return
                 ran = EXEC[before:]
+                if kind == "force" and ran != [(f"v{j}", a)]:
+                    ctx.violation(f"forced-call-did-not-execute:{style}", f"step {idx}: call() of version {j} executed {ran}; {desc}", desc)
+                    return
                 if ran and ran != [(f"v{j}", a)]:
                     ctx.violation(f"wrong-code-executed:{style}", f"step {idx}: calling version {j} executed {ran}; {desc}", desc)
                     return
@@ -226,14 +264,14 @@ def run_case(case, ctx):
                 run_idreuse(ctx, d, harness.rng_for(ctx.seed, ID, "idreuse", len(case["hs"]), _))
                 del EXEC[:]
             for item in case["hs"]:
-                styles = ["cells", "lambda", "nested", "reload", "codeswap"] if case["all_styles"] else sorted({item["style"], "cells"})
+                styles = ["cells", "samefile", "lambda", "nested", "reload", "codeswap"] if case["all_styles"] else sorted({item["style"], "cells"})
                 for st in styles:
                     ctx.evaluated()
                     run_history(st, [tuple(s) for s in item["h"]], ctx, d)
                     del EXEC[:]
         else:
             rng = harness.rng_for(ctx.seed, ID, "rand", case["i"])
-            alpha = steps_alphabet(3, 3)
+            alpha = steps_alphabet(3, 3, force=True)
             for _ in range(12):
                 n = rng.randint(5, 12)
                 h = [("def", rng.randint(1, 3))]
@@ -242,7 +280,7 @@ def run_case(case, ctx):
                     if valid_history(h + [s]):
                         h.append(s)
                 ctx.evaluated()
-                run_history(rng.choice(["cells", "cells", "lambda", "nested", "reload", "codeswap"]), h, ctx, d)
+                run_history(rng.choice(["cells", "samefile", "samefile", "lambda", "nested", "reload", "codeswap"]), h, ctx, d)
                 del EXEC[:]
             if case["i"] % 20 == 0:
                 ctx.sample(dict(style="random", history=h))
